@@ -705,13 +705,10 @@ Section TransferProofs.
   Definition named (a : patom) : bool :=
     match lookup (pa_name a) lig with Some _ => true | None => false end.
 
-  (* atoms of one residue that receive ligand parameters *)
+  (* atoms of one residue that receive ligand parameters when it is visited *)
   Definition vis (l : list patom) : list patom := filter named (het_prefix l).
 
   Definition all_atoms (rs : list presidue) : list patom := flat_map pr_atoms rs.
-  Definition all_vis (rs : list presidue) : list patom := flat_map (fun r => vis (pr_atoms r)) rs.
-  Definition ligand_ids (rs : list presidue) : list nat :=
-    map pa_id (flat_map pr_atoms (filter pr_lig rs)).
 
   Lemma sub_het_prefix l : sub (het_prefix l) l.
   Proof.
@@ -721,9 +718,6 @@ Section TransferProofs.
 
   Lemma sub_vis l : sub (vis l) l.
   Proof. exact (sub_trans _ _ _ (sub_filter _ _) (sub_het_prefix l)). Qed.
-
-  Lemma sub_all_vis rs : sub (all_vis rs) (all_atoms rs).
-  Proof. apply sub_flat_map. intros r. apply sub_vis. Qed.
 
   (* state after the inner loop over one residue *)
   Lemma visit_lig st l : ts_lig (visit_atoms lig st l) = (ts_lig st ++ map pa_id (vis l))%list.
@@ -767,45 +761,6 @@ Section TransferProofs.
     - apply IH; assumption.
   Qed.
 
-  (* state after the whole loop *)
-  Lemma loop_lig_gen rs st :
-    ts_lig (fold_left (fun st r => visit_atoms lig st (pr_atoms r)) rs st) =
-    (ts_lig st ++ map pa_id (all_vis rs))%list.
-  Proof.
-    revert st. induction rs as [|r rs IH]; intros st; cbn [fold_left all_vis flat_map map].
-    - now rewrite app_nil_r.
-    - rewrite IH, visit_lig, map_app, app_assoc. reflexivity.
-  Qed.
-
-  Lemma loop_lig rs : ts_lig (transfer_loop lig rs) = map pa_id (all_vis rs).
-  Proof. unfold transfer_loop. rewrite loop_lig_gen. reflexivity. Qed.
-
-  Lemma loop_param_other_gen rs st i :
-    (forall a, In a (all_vis rs) -> pa_id a <> i) ->
-    ts_param (fold_left (fun st r => visit_atoms lig st (pr_atoms r)) rs st) i = ts_param st i.
-  Proof.
-    revert st. induction rs as [|r rs IH]; intros st Hne; cbn [fold_left]; [reflexivity|].
-    cbn [all_vis flat_map] in Hne.
-    rewrite IH by (intros a Ha; apply Hne, in_or_app; now right).
-    apply visit_param_other. intros a Ha. apply Hne, in_or_app. now left.
-  Qed.
-
-  Lemma loop_param_hit_gen rs st a p :
-    NoDup (map pa_id (all_atoms rs)) -> In a (all_vis rs) -> lookup (pa_name a) lig = Some p ->
-    ts_param (fold_left (fun st r => visit_atoms lig st (pr_atoms r)) rs st) (pa_id a) = Some p.
-  Proof.
-    revert st. induction rs as [|r rs IH]; intros st Hnd Hin Hp; cbn [all_vis flat_map] in Hin; [contradiction|].
-    cbn [fold_left]. cbn [all_atoms flat_map] in Hnd. rewrite map_app in Hnd.
-    apply in_app_or in Hin as [Hin|Hin].
-    - rewrite loop_param_other_gen.
-      + apply visit_param_hit; [exact (sub_NoDup _ _ (sub_app_l _ _) Hnd) | exact Hin | exact Hp].
-      + intros b Hb Heq.
-        apply (NoDup_app_In _ _ (pa_id a) Hnd).
-        * apply in_map. exact (sub_In _ _ _ (sub_vis _) Hin).
-        * rewrite <- Heq. apply in_map. exact (sub_In _ _ _ (sub_all_vis rs) Hb).
-    - apply IH; [exact (sub_NoDup _ _ (sub_app_r _ _) Hnd) | exact Hin | exact Hp].
-  Qed.
-
   Lemma ff_param_in rs a :
     NoDup (map pa_id (all_atoms rs)) -> In a (all_atoms rs) -> ff_param rs (pa_id a) = pa_ff a.
   Proof.
@@ -817,149 +772,256 @@ Section TransferProofs.
     exfalso. apply Hni. rewrite Heq. now apply in_map.
   Qed.
 
-  (* ---- the property, and the guard under which it holds ------------------ *)
-
-  (* (1) every atom line whose atom is outside the ligand carries the force
-         field's parameters, (2) no atom is written twice, (3) each ligand atom
-         the MOL2 file names is written with the MOL2 parameters *)
-  Definition transfer_only_ligand (rs : list presidue) : Prop :=
-    (forall i w, ~ In i (ligand_ids rs) -> In (i, w) (written lig rs) -> w = ff_param rs i) /\
-    NoDup (map fst (written lig rs)) /\
-    (forall r a p, In r rs -> pr_lig r = true -> In a (het_prefix (pr_atoms r)) ->
-                   lookup (pa_name a) lig = Some p -> In (pa_id a, Some p) (written lig rs)).
-
-  (* guard: (G1) no atom the loop looks at outside the ligand residue has a name
-     that occurs in the MOL2 file; (G2) the force field has no parameters for
-     the ligand's own atoms *)
-  Definition guard (rs : list presidue) : bool :=
-    forallb (fun r =>
-               if pr_lig r
-               then forallb (fun a => match pa_ff a with None => true | Some _ => false end) (vis (pr_atoms r))
-               else match vis (pr_atoms r) with [] => true | _ => false end) rs.
-
-  Lemma guard_vis_lig rs a :
-    guard rs = true -> In a (all_vis rs) -> In (pa_id a) (ligand_ids rs) /\ pa_ff a = None.
+  Lemma nmem_In i l : nmem i l = true <-> In i l.
   Proof.
-    unfold guard, all_vis, ligand_ids. induction rs as [|r rs IH]; cbn [forallb flat_map filter]; intros Hg Hin; [contradiction|].
-    apply andb_true_iff in Hg as [Hr Hg]. apply in_app_or in Hin as [Hin|Hin].
-    - destruct (pr_lig r).
-      + rewrite forallb_forall in Hr. specialize (Hr a Hin). split.
-        * cbn [flat_map]. rewrite map_app. apply in_or_app. left. apply in_map.
-          exact (sub_In _ _ _ (sub_vis _) Hin).
-        * destruct (pa_ff a); [discriminate | reflexivity].
-      + destruct (vis (pr_atoms r)); [contradiction | discriminate].
-    - destruct (IH Hg Hin) as [H1 H2]. split; [|exact H2].
-      destruct (pr_lig r); [|exact H1]. cbn [flat_map]. rewrite map_app. apply in_or_app. now right.
+    unfold nmem. rewrite existsb_exists. split.
+    - intros [x [Hx He]]. apply Nat.eqb_eq in He. now subst.
+    - intros H. exists i. split; [exact H | apply Nat.eqb_refl].
   Qed.
 
-  Theorem transfer_only_ligand_partial rs :
-    NoDup (map pa_id (all_atoms rs)) -> guard rs = true -> transfer_only_ligand rs.
-  Proof.
-    intros Hnd Hg. unfold transfer_only_ligand, written. rewrite loop_lig. repeat split.
-    - intros i w Hni Hin. apply in_map_iff in Hin as [j [Hj _]]. injection Hj as -> <-.
-      unfold transfer_loop. rewrite loop_param_other_gen; [reflexivity|].
-      intros a Ha Heq. apply Hni. rewrite <- Heq. exact (proj1 (guard_vis_lig rs a Hg Ha)).
-    - rewrite map_map. cbn [fst]. rewrite map_id. apply NoDup_app_disjoint.
-      + unfold ff_hits. fold (all_atoms rs). exact (sub_NoDup _ _ (sub_map pa_id _ _ (sub_filter _ _)) Hnd).
-      + exact (sub_NoDup _ _ (sub_map pa_id _ _ (sub_all_vis rs)) Hnd).
-      + intros i H1 H2. unfold ff_hits in H1. fold (all_atoms rs) in H1.
-        apply in_map_iff in H1 as [a [Ha1 Ha2]]. apply filter_In in Ha2 as [Ha2 Hff].
-        apply in_map_iff in H2 as [b [Hb1 Hb2]].
-        pose proof (sub_In _ _ _ (sub_all_vis rs) Hb2) as Hb3.
-        assert (a = b) by (apply (NoDup_map_inj pa_id _ a b Hnd Ha2 Hb3); congruence). subst b.
-        rewrite (proj2 (guard_vis_lig rs a Hg Hb2)) in Hff. discriminate.
-    - intros r a p Hr Hl Ha Hp.
-      assert (Hv : In a (all_vis rs)).
-      { unfold all_vis. apply in_flat_map. exists r. split; [exact Hr|].
-        unfold vis. apply filter_In. split; [exact Ha|]. unfold named. now rewrite Hp. }
-      apply in_map_iff. exists (pa_id a). split.
-      + f_equal. unfold transfer_loop. now apply loop_param_hit_gen.
-      + apply in_or_app. right. now apply in_map.
-  Qed.
-  (* ---- the guard is exact: without it the property fails ------------------ *)
+  (* ================= the loop as coded now (after the repair of F4) ========= *)
+  Section Selected.
+    Context (names : list string).        (* lig_names: the selected residue names *)
 
-  Lemma nonlig_not_ligand_id rs r a :
-    NoDup (map pa_id (all_atoms rs)) -> In r rs -> pr_lig r = false -> In a (pr_atoms r) ->
-    ~ In (pa_id a) (ligand_ids rs).
+    (* what the loop visits in one residue *)
+    Definition rvis (r : presidue) : list patom :=
+      if selected names r then vis (pr_atoms r) else [].
+    Definition all_vis (rs : list presidue) : list patom := flat_map rvis rs.
+    (* the atoms of the selected residues = "the ligand's atoms" *)
+    Definition ligand_ids (rs : list presidue) : list nat :=
+      map pa_id (flat_map pr_atoms (filter (selected names) rs)).
+
+    Local Notation step := (fun st r => if selected names r then visit_atoms lig st (pr_atoms r) else st).
+
+    Lemma sub_rvis r : sub (rvis r) (pr_atoms r).
+    Proof. unfold rvis. destruct (selected names r); [apply sub_vis | apply sub_nil_l]. Qed.
+
+    Lemma sub_all_vis rs : sub (all_vis rs) (all_atoms rs).
+    Proof. apply sub_flat_map. intros r. apply sub_rvis. Qed.
+
+    Lemma step_lig st r : ts_lig (step st r) = (ts_lig st ++ map pa_id (rvis r))%list.
+    Proof. unfold rvis. destruct (selected names r); [apply visit_lig | now rewrite app_nil_r]. Qed.
+
+    Lemma step_param_other st r i :
+      (forall a, In a (rvis r) -> pa_id a <> i) -> ts_param (step st r) i = ts_param st i.
+    Proof. unfold rvis. destruct (selected names r); intros H; [now apply visit_param_other | reflexivity]. Qed.
+
+    Lemma loop_lig_gen rs st :
+      ts_lig (fold_left step rs st) = (ts_lig st ++ map pa_id (all_vis rs))%list.
+    Proof.
+      revert st. induction rs as [|r rs IH]; intros st; cbn [fold_left all_vis flat_map map].
+      - now rewrite app_nil_r.
+      - rewrite IH, step_lig, map_app, app_assoc. reflexivity.
+    Qed.
+
+    Lemma loop_lig rs : ts_lig (transfer_loop_on names lig rs) = map pa_id (all_vis rs).
+    Proof. unfold transfer_loop_on. rewrite loop_lig_gen. reflexivity. Qed.
+
+    Lemma loop_param_other_gen rs st i :
+      (forall a, In a (all_vis rs) -> pa_id a <> i) ->
+      ts_param (fold_left step rs st) i = ts_param st i.
+    Proof.
+      revert st. induction rs as [|r rs IH]; intros st Hne; cbn [fold_left]; [reflexivity|].
+      cbn [all_vis flat_map] in Hne.
+      rewrite IH by (intros a Ha; apply Hne, in_or_app; now right).
+      apply step_param_other. intros a Ha. apply Hne, in_or_app. now left.
+    Qed.
+
+    Lemma loop_param_hit_gen rs st a p :
+      NoDup (map pa_id (all_atoms rs)) -> In a (all_vis rs) -> lookup (pa_name a) lig = Some p ->
+      ts_param (fold_left step rs st) (pa_id a) = Some p.
+    Proof.
+      revert st. induction rs as [|r rs IH]; intros st Hnd Hin Hp; cbn [all_vis flat_map] in Hin; [contradiction|].
+      cbn [fold_left]. cbn [all_atoms flat_map] in Hnd. rewrite map_app in Hnd.
+      apply in_app_or in Hin as [Hin|Hin].
+      - rewrite loop_param_other_gen.
+        + unfold rvis in Hin. destruct (selected names r); [|contradiction].
+          apply visit_param_hit; [exact (sub_NoDup _ _ (sub_app_l _ _) Hnd) | exact Hin | exact Hp].
+        + intros b Hb Heq.
+          apply (NoDup_app_In _ _ (pa_id a) Hnd).
+          * apply in_map. exact (sub_In _ _ _ (sub_rvis _) Hin).
+          * rewrite <- Heq. apply in_map. exact (sub_In _ _ _ (sub_all_vis rs) Hb).
+      - apply IH; [exact (sub_NoDup _ _ (sub_app_r _ _) Hnd) | exact Hin | exact Hp].
+    Qed.
+
+    (* whatever the loop touches lies in a selected residue *)
+    Lemma vis_in_ligand rs a : In a (all_vis rs) -> In (pa_id a) (ligand_ids rs).
+    Proof.
+      unfold all_vis, ligand_ids. intros Hin. apply in_flat_map in Hin as [r [Hr Ha]].
+      unfold rvis in Ha. destruct (selected names r) eqn:Hs; [|contradiction].
+      apply in_map, in_flat_map. exists r. split.
+      - apply filter_In. split; assumption.
+      - exact (sub_In _ _ _ (sub_vis _) Ha).
+    Qed.
+
+    (* ---- the property ----------------------------------------------------- *)
+
+    (* (1) every atom line whose atom is outside the selected residues carries
+           the force field's parameters,
+       (2) no atom is written twice,
+       (3) each atom of a selected residue (up to its first ATOM record) that
+           the MOL2 file names is written with the MOL2 parameters,
+       (4) ... exactly once *)
+    Definition transfer_only_ligand_on (rs : list presidue) : Prop :=
+      (forall i w, ~ In i (ligand_ids rs) -> In (i, w) (written_on names lig rs) -> w = ff_param rs i) /\
+      NoDup (map fst (written_on names lig rs)) /\
+      (forall r a p, In r rs -> selected names r = true -> In a (het_prefix (pr_atoms r)) ->
+                     lookup (pa_name a) lig = Some p ->
+                     In (pa_id a, Some p) (written_on names lig rs) /\
+                     count_occ Nat.eq_dec (map fst (written_on names lig rs)) (pa_id a) = 1%nat).
+
+    Lemma written_ids rs :
+      map fst (written_on names lig rs) =
+      (ff_hits rs ++ filter (fun i => negb (nmem i (ff_hits rs))) (map pa_id (all_vis rs)))%list.
+    Proof. unfold written_on. rewrite loop_lig, map_map. cbn [fst]. now rewrite map_id. Qed.
+
+    Lemma written_nodup rs : NoDup (map pa_id (all_atoms rs)) -> NoDup (map fst (written_on names lig rs)).
+    Proof.
+      intros Hnd. rewrite written_ids. apply NoDup_app_disjoint.
+      - unfold ff_hits. fold (all_atoms rs). exact (sub_NoDup _ _ (sub_map pa_id _ _ (sub_filter _ _)) Hnd).
+      - apply (sub_NoDup _ _ (sub_filter _ _)).
+        exact (sub_NoDup _ _ (sub_map pa_id _ _ (sub_all_vis rs)) Hnd).
+      - intros i H1 H2. apply filter_In in H2 as [_ H2]. apply negb_true_iff in H2.
+        apply nmem_In in H1. congruence.
+    Qed.
+
+    Theorem transfer_only_ligand_on_holds rs :
+      NoDup (map pa_id (all_atoms rs)) -> transfer_only_ligand_on rs.
+    Proof.
+      intros Hnd. split; [|split].
+      - intros i w Hni Hin. unfold written_on in Hin. apply in_map_iff in Hin as [j [Hj _]]. injection Hj as -> <-.
+        unfold transfer_loop_on. rewrite loop_param_other_gen; [reflexivity|].
+        intros a Ha Heq. apply Hni. rewrite <- Heq. now apply vis_in_ligand.
+      - now apply written_nodup.
+      - intros r a p Hr Hs Ha Hp.
+        assert (Hv : In a (all_vis rs)).
+        { unfold all_vis. apply in_flat_map. exists r. split; [exact Hr|].
+          unfold rvis. rewrite Hs. unfold vis. apply filter_In. split; [exact Ha|]. unfold named. now rewrite Hp. }
+        assert (Hid : In (pa_id a) (map fst (written_on names lig rs))).
+        { rewrite written_ids. apply in_or_app.
+          destruct (nmem (pa_id a) (ff_hits rs)) eqn:Hm; [left; now apply nmem_In | right].
+          apply filter_In. split; [now apply in_map | now rewrite Hm]. }
+        split.
+        + unfold written_on. unfold written_on in Hid. rewrite map_map in Hid. cbn [fst] in Hid. rewrite map_id in Hid.
+          apply in_map_iff. exists (pa_id a). split; [|exact Hid].
+          f_equal. unfold transfer_loop_on. now apply loop_param_hit_gen.
+        + apply NoDup_count_occ'; [now apply written_nodup | exact Hid].
+    Qed.
+
+    (* a residue that is not selected is written exactly as without --ligand *)
+    Lemma unselected_untouched rs r a w :
+      NoDup (map pa_id (all_atoms rs)) -> In r rs -> selected names r = false -> In a (pr_atoms r) ->
+      In (pa_id a, w) (written_on names lig rs) -> w = pa_ff a.
+    Proof.
+      intros Hnd Hr Hs Ha Hw.
+      assert (Hall : In a (all_atoms rs)) by (apply in_flat_map; exists r; split; assumption).
+      rewrite <- (ff_param_in rs a Hnd Hall).
+      apply (proj1 (transfer_only_ligand_on_holds rs Hnd)); [|exact Hw].
+      unfold ligand_ids. intro Hin. apply in_map_iff in Hin as [b [Hid Hb]].
+      apply in_flat_map in Hb as [r' [Hr' Hb]]. apply filter_In in Hr' as [Hr' Hs'].
+      assert (Hball : In b (all_atoms rs)) by (apply in_flat_map; exists r'; split; assumption).
+      assert (b = a) by (apply (NoDup_map_inj pa_id _ b a Hnd Hball Hall Hid)). subst b.
+      (* a lies in r (unselected) and in r' (selected): ids are unique, so r = r' positionally *)
+      clear - Hnd Hr Hr' Hs Hs' Ha Hb.
+      unfold all_atoms in Hnd. induction rs as [|r0 rs IH]; [contradiction|].
+      cbn [flat_map] in Hnd. rewrite map_app in Hnd.
+      pose proof (sub_NoDup _ _ (sub_app_r _ _) Hnd) as Hnd'.
+      destruct Hr as [->|Hr]; destruct Hr' as [->|Hr'].
+      - congruence.
+      - apply (NoDup_app_In _ _ (pa_id a) Hnd); [now apply in_map|].
+        apply in_map, in_flat_map. exists r'. split; assumption.
+      - apply (NoDup_app_In _ _ (pa_id a) Hnd); [now apply in_map|].
+        apply in_map, in_flat_map. exists r. split; assumption.
+      - exact (IH Hnd' Hr Hr').
+    Qed.
+  End Selected.
+
+  (* ---- how the selected names are chosen ---------------------------------- *)
+
+  Lemma smem_In s l : smem s l = true <-> In s l.
   Proof.
-    unfold ligand_ids, all_atoms. induction rs as [|r0 rs IH]; cbn [In flat_map filter]; intros Hnd Hr Hl Ha; [contradiction|].
-    rewrite map_app in Hnd.
-    assert (Hsub : sub (map pa_id (flat_map pr_atoms (filter pr_lig rs))) (map pa_id (flat_map pr_atoms rs))).
-    { apply sub_map. clear. induction rs as [|r rs IH]; cbn [filter flat_map]; [constructor|].
-      destruct (pr_lig r); cbn [flat_map].
-      - apply sub_app; [apply sub_refl | exact IH].
-      - exact (sub_trans _ _ _ IH (sub_app_r _ _)). }
-    destruct Hr as [->|Hr].
-    - rewrite Hl. intro Hin. apply (NoDup_app_In _ _ (pa_id a) Hnd); [now apply in_map | exact (sub_In _ _ _ Hsub Hin)].
-    - pose proof (sub_NoDup _ _ (sub_app_r _ _) Hnd) as Hnd'.
-      destruct (pr_lig r0); [|exact (IH Hnd' Hr Hl Ha)].
-      cbn [flat_map]. rewrite map_app. intro Hin. apply in_app_or in Hin as [Hin|Hin].
-      + apply (NoDup_app_In _ _ (pa_id a) Hnd Hin). apply in_map. apply in_flat_map. exists r. split; assumption.
-      + exact (IH Hnd' Hr Hl Ha Hin).
+    unfold smem. rewrite existsb_exists. split.
+    - intros [x [Hx He]]. apply String.eqb_eq in He. now subst.
+    - intros H. exists s. split; [exact H | apply String.eqb_refl].
   Qed.
 
-  Lemma forallb_false_exists {X} (f : X -> bool) l : forallb f l = false -> exists x, In x l /\ f x = false.
+  (* some residue carries a MOL2 residue name: exactly the residues with such a name are selected *)
+  Lemma lig_names_by_name lnames heavy (rs : list presidue) :
+    existsb (fun r : presidue => smem (pr_name r) lnames) rs = true ->
+    lig_names lnames heavy lig rs = lnames.
+  Proof. unfold lig_names. now intros ->. Qed.
+
+  (* none does: a selected residue bears the name of a residue that the MOL2
+     file describes atom by atom *)
+  Lemma lig_names_fallback lnames heavy (rs : list presidue) (r : presidue) :
+    existsb (fun r : presidue => smem (pr_name r) lnames) rs = false ->
+    selected (lig_names lnames heavy lig rs) r = true ->
+    exists r' : presidue, In r' rs /\ pr_name r' = pr_name r /\ describes heavy lig r' = true.
   Proof.
-    induction l as [|x l IH]; cbn [forallb]; intros H; [discriminate|].
-    destruct (f x) eqn:E.
-    - destruct (IH H) as [y [Hy Hf]]. exists y. split; [now right | exact Hf].
-    - exists x. split; [now left | exact E].
+    unfold lig_names, selected. intros ->. rewrite smem_In, in_map_iff.
+    intros [r' [Hn Hf]]. apply filter_In in Hf as [Hr' Hd]. exists r'. repeat split; assumption.
   Qed.
 
-  (* an atom that is both a force-field hit and visited by the loop is written twice *)
-  Lemma hit_and_vis_dup rs a :
-    In a (all_atoms rs) -> pa_ff a <> None -> In a (all_vis rs) -> ~ NoDup (map fst (written lig rs)).
+  (* main.non_trivial as coded: the property for the names the code computes *)
+  Definition transfer_only_ligand (lnames heavy : list string) (rs : list presidue) : Prop :=
+    transfer_only_ligand_on (lig_names lnames heavy lig rs) rs.
+
+  Theorem transfer_only_ligand_holds lnames heavy rs :
+    NoDup (map pa_id (all_atoms rs)) -> transfer_only_ligand lnames heavy rs.
+  Proof. intros Hnd. apply transfer_only_ligand_on_holds, Hnd. Qed.
+
+  (* waters, ions, other hetero groups: when the MOL2 residue name occurs in the
+     structure, a residue with another name is written exactly as without
+     --ligand, whatever its atoms are called *)
+  Theorem other_residues_untouched lnames heavy (rs : list presidue) (r : presidue) (a : patom) w :
+    NoDup (map pa_id (all_atoms rs)) ->
+    existsb (fun r : presidue => smem (pr_name r) lnames) rs = true ->
+    In r rs -> ~ In (pr_name r) lnames -> In a (pr_atoms r) ->
+    In (pa_id a, w) (written lnames heavy lig rs) -> w = pa_ff a.
   Proof.
-    intros Ha Hff Hv Hnd. unfold written in Hnd. rewrite loop_lig, map_map in Hnd. cbn [fst] in Hnd. rewrite map_id in Hnd.
-    apply (NoDup_app_In _ _ (pa_id a) Hnd); [|now apply in_map].
-    unfold ff_hits. apply in_map. apply filter_In. split; [exact Ha|]. destruct (pa_ff a); [reflexivity | contradiction].
+    intros Hnd Hex Hr Hn Ha Hw. unfold written in Hw. rewrite (lig_names_by_name _ _ _ Hex) in Hw.
+    apply (unselected_untouched lnames rs r a w Hnd Hr); [|exact Ha|exact Hw].
+    unfold selected. destruct (smem (pr_name r) lnames) eqn:E; [|reflexivity].
+    exfalso. apply Hn. now apply smem_In.
   Qed.
 
-  Theorem transfer_guard_exact rs :
-    NoDup (map pa_id (all_atoms rs)) -> transfer_only_ligand rs -> guard rs = true.
+  (* ... and when it does not (placeholder name), only residues named like one
+     that consists of exactly the MOL2 file's heavy atoms (+ its hydrogens) *)
+  Theorem other_residues_untouched_fallback lnames heavy (rs : list presidue) (r : presidue) (a : patom) w :
+    NoDup (map pa_id (all_atoms rs)) ->
+    existsb (fun r : presidue => smem (pr_name r) lnames) rs = false ->
+    In r rs ->
+    (forall r' : presidue, In r' rs -> pr_name r' = pr_name r -> describes heavy lig r' = false) ->
+    In a (pr_atoms r) ->
+    In (pa_id a, w) (written lnames heavy lig rs) -> w = pa_ff a.
   Proof.
-    intros Hnd [H1 [H2 _]]. destruct (guard rs) eqn:Hg; [reflexivity|exfalso].
-    unfold guard in Hg. apply forallb_false_exists in Hg as [r [Hr Hf]].
-    destruct (pr_lig r) eqn:Hl.
-    - apply forallb_false_exists in Hf as [a [Ha Hff]].
-      apply (hit_and_vis_dup rs a); [| |  | exact H2].
-      + apply in_flat_map. exists r. split; [exact Hr | exact (sub_In _ _ _ (sub_vis _) Ha)].
-      + destruct (pa_ff a); [discriminate | discriminate].
-      + apply in_flat_map. exists r. split; assumption.
-    - destruct (vis (pr_atoms r)) as [|a l] eqn:Hv; [discriminate|].
-      assert (Hav : In a (vis (pr_atoms r))) by (rewrite Hv; now left).
-      assert (Hall : In a (all_vis rs)) by (apply in_flat_map; exists r; split; assumption).
-      assert (Hat : In a (pr_atoms r)) by exact (sub_In _ _ _ (sub_vis _) Hav).
-      assert (Hatoms : In a (all_atoms rs)) by (apply in_flat_map; exists r; split; assumption).
-      unfold vis in Hav. apply filter_In in Hav as [_ Hnamed]. unfold named in Hnamed.
-      destruct (lookup (pa_name a) lig) as [p|] eqn:Hp; [|discriminate].
-      assert (Hw : In (pa_id a, Some p) (written lig rs)).
-      { unfold written. rewrite loop_lig. apply in_map_iff. exists (pa_id a). split.
-        - f_equal. unfold transfer_loop. now apply loop_param_hit_gen.
-        - apply in_or_app. right. now apply in_map. }
-      pose proof (H1 _ _ (nonlig_not_ligand_id rs r a Hnd Hr Hl Hat) Hw) as Hff.
-      rewrite (ff_param_in rs a Hnd Hatoms) in Hff.
-      apply (hit_and_vis_dup rs a Hatoms); [rewrite <- Hff; discriminate | exact Hall | exact H2].
+    intros Hnd Hex Hr Hn Ha Hw. unfold written in Hw.
+    apply (unselected_untouched (lig_names lnames heavy lig rs) rs r a w Hnd Hr); [|exact Ha|exact Hw].
+    destruct (selected (lig_names lnames heavy lig rs) r) eqn:E; [|reflexivity].
+    destruct (lig_names_fallback lnames heavy rs r Hex E) as [r' [H1 [H2 H3]]].
+    rewrite (Hn r' H1 H2) in H3. discriminate.
   Qed.
 End TransferProofs.
 
-(* F4: a water whose H1 shares its name with a ligand atom takes the ligand's
-   parameters and is written twice.  Parameters are (charge, radius) in 1/10000. *)
+(* F4 (repaired): the loop BEFORE the repair visited every HETATM-led residue.
+   A water whose H1 shares its name with a ligand atom took the ligand's
+   parameters and was written twice.  Parameters are (charge, radius) in 1/10000. *)
 Local Open Scope string_scope.
 Definition f4_lig : list (string * (Z * Z)) := [("C1", (-1200, 18700)%Z); ("H1", (650, 11000)%Z)].
 Definition f4_complex : list (presidue (Z * Z)) :=
-  [ mkpres false [mkpatom 0 false "N" (Some (-4157, 18240)); mkpatom 1 false "CA" (Some (337, 19080))];
-    mkpres true  [mkpatom 2 true "C1" None; mkpatom 3 true "H1" None];
-    mkpres false [mkpatom 4 true "O" (Some (-8340, 17683)); mkpatom 5 true "H1" (Some (4170, 0));
+  [ mkpres "PRO" [mkpatom 0 false "N" (Some (-4157, 18240)); mkpatom 1 false "CA" (Some (337, 19080))];
+    mkpres "LIG" [mkpatom 2 true "C1" None; mkpatom 3 true "H1" None];
+    mkpres "HOH" [mkpatom 4 true "O" (Some (-8340, 17683)); mkpatom 5 true "H1" (Some (4170, 0));
                   mkpatom 6 true "H2" (Some (4170, 0))] ]%Z.
 
-Theorem transfer_only_ligand_refuted :
-  exists (lig : list (string * (Z * Z))) (rs : list (presidue (Z * Z))),
+(* about [transfer_loop_old]/[written_old] = the code before the repair, NOT the code as it is *)
+Theorem transfer_old_loop_refuted :
+  exists (lnames : list string) (lig : list (string * (Z * Z))) (rs : list (presidue (Z * Z))),
     NoDup (map pa_id (all_atoms rs)) /\
-    (exists i w, ~ In i (ligand_ids rs) /\ In (i, w) (written lig rs) /\ w <> ff_param rs i) /\
-    ~ NoDup (map fst (written lig rs)).
+    (exists i w, ~ In i (ligand_ids lnames rs) /\ In (i, w) (written_old lig rs) /\ w <> ff_param rs i) /\
+    ~ NoDup (map fst (written_old lig rs)).
 Proof.
-  exists f4_lig, f4_complex. split; [|split].
+  exists ["LIG"], f4_lig, f4_complex. split; [|split].
   - vm_compute. repeat constructor; cbn; intuition discriminate.
   - exists 5%nat, (Some (650, 11000)%Z). split; [|split].
     + vm_compute. intuition discriminate.
